@@ -2,6 +2,8 @@ package world
 
 import (
 	"fmt"
+	"regexp"
+	"strconv"
 	"strings"
 	"time"
 
@@ -59,13 +61,17 @@ type WGen struct {
 	Replicas2 bool
 	Thorough  bool
 	ShortQuiet bool // cycle oracles only: no need to wait for convergence
-	// ReloadFault allows the "Prometheus reload fails" fault. It is outside C06's list of
+	// ReloadFault allows the "Prometheus reload fails" and "Prometheus stalled" faults. It is outside C06's list of
 	// faults (kvass does not retry a failed reload, so convergence is not promised under it)
 	// and is only used where safety oracles alone are evaluated.
 	ReloadFault bool
+	// ConfigFocus: file-mode sidecars, many configuration events (semantic edits, cosmetic
+	// edits, late file roll-outs), no other faults: C16's "in sync exactly when it runs the
+	// coordinator's configuration" over cycles
+	ConfigFocus bool
 }
 
-var allFaults = []string{"post_lost_before", "post_lost_after", "sidecar_restart", "shard_not_ready", "shard_unreachable", "external_scale", "config_out_of_sync", "get_fail", "prom_reload_fails"}
+var allFaults = []string{"post_lost_before", "post_lost_after", "sidecar_restart", "shard_not_ready", "shard_unreachable", "external_scale", "config_out_of_sync", "get_fail", "prom_reload_fails", "prom_stalled"}
 
 // GenWorld draws a world scenario.
 func GenWorld(tp *core.Tape, g WGen) *WScenario {
@@ -154,7 +160,7 @@ func GenWorld(tp *core.Tape, g WGen) *WScenario {
 	if g.Faults {
 		sc.FaultBudget = 1 + tp.Weighted("fault_budget", 3, 3, 2, 1)
 		for _, k := range allFaults {
-			if k == "prom_reload_fails" && !g.ReloadFault {
+			if (k == "prom_reload_fails" || k == "prom_stalled") && !g.ReloadFault {
 				continue
 			}
 			if tp.Bool("fault_enabled", 3, 5) {
@@ -191,6 +197,17 @@ func GenWorld(tp *core.Tape, g WGen) *WScenario {
 			}
 		}
 	}
+	if g.ConfigFocus {
+		sc.FileMode = true
+		sc.WorkCycles = 12 + tp.Choose("cfg_cycles", 20)
+		sc.Events = nil
+		ne := 3 + tp.Choose("cfg_events", 8)
+		for i := 0; i < ne; i++ {
+			sc.Events = append(sc.Events, WEvent{At: time.Duration(tp.Choose("event_at", sc.WorkCycles*10)) * time.Second,
+				Kind: core.Pick(tp, "cfg_kind", "config_edit", "config_cosmetic", "rollout", "config_cosmetic", "add_target"), Idx: tp.Choose("event_target", n)})
+		}
+		sc.FaultBudget = 0
+	}
 	sc.QuietCycles = 140
 	sc.StableCycles = 12
 	if g.ShortQuiet {
@@ -199,14 +216,27 @@ func GenWorld(tp *core.Tape, g WGen) *WScenario {
 	return sc
 }
 
-// ConfigText renders the coordinator's configuration; version>0 adds a semantic edit.
-func (sc *WScenario) ConfigText(version int) string {
+// ConfigText renders the coordinator's configuration. sem counts semantic edits (a job
+// setting changes), cos counts cosmetic ones (only an external label and a comment change).
+func (sc *WScenario) ConfigText(sem, cos int) string {
 	var b strings.Builder
-	fmt.Fprintf(&b, "global:\n  scrape_interval: %s\n  scrape_timeout: 4s\n  external_labels:\n    v: \"%d\"\nscrape_configs:\n", sc.ScrapeInterval, version)
+	fmt.Fprintf(&b, "# revision %d.%d\nglobal:\n  scrape_interval: %s\n  scrape_timeout: 4s\n  external_labels:\n    v: \"%d\"\nscrape_configs:\n", sem, cos, sc.ScrapeInterval, cos)
 	for _, j := range sc.Jobs {
-		fmt.Fprintf(&b, "- job_name: %s\n  sample_limit: %d\n  metric_relabel_configs:\n  - source_labels: [__name__]\n    regex: drop_.*\n    action: drop\n  static_configs:\n  - targets: ['placeholder:1']\n", j, 100000+version)
+		fmt.Fprintf(&b, "- job_name: %s\n  sample_limit: %d\n  metric_relabel_configs:\n  - source_labels: [__name__]\n    regex: drop_.*\n    action: drop\n  static_configs:\n  - targets: ['placeholder:1']\n", j, 100000+sem)
 	}
 	return b.String()
+}
+
+var semRe = regexp.MustCompile(`sample_limit: (\d+)`)
+
+// SemOf extracts the semantic revision from a configuration text (-1 if none).
+func SemOf(text string) int {
+	m := semRe.FindStringSubmatch(text)
+	if m == nil {
+		return -1
+	}
+	n, _ := strconv.Atoi(m[1])
+	return n - 100000
 }
 
 // Eligible: discovered, healthy, strictly fits an empty shard. Equality with a limit is unasserted.
